@@ -24,7 +24,7 @@ inductive TotpStmt
   | lockoutTest        -- `if lockoutExpirationTime.After(time.Now()) { return false }`
   | resetTest          -- `if lastFailTime.Add(24h).Before(time.Now()) { failCount = 0; lockoutExpirationTime = time.Now() }`
   | replayTest         -- `if profile.LastSuccessfullTOTPCounter == counter { return false }`
-  | deviceLoop         -- the loop calling totp.Validate; on success failCount = 0, lockout = now, counter saved, return true
+  | deviceLoop         -- per enabled device `totpMatchedCounter`; a miss or a step ≤ the last accepted one `continue`s; else step saved, failCount = 0, lockout = now, return true
   | incFail            -- `failCount++`
   | lockoutUpdate      -- `if failCount % every == 0 { … }`
   | setLastFail        -- `lastFailTime = time.Now()`
